@@ -11,6 +11,8 @@ typedef boost::adjacency_list<boost::vecS, boost::vecS, boost::undirectedS, boos
         boost::property<boost::edge_weight_t, double>> DGraph;
 typedef boost::adjacency_list<boost::vecS, boost::vecS, boost::undirectedS, boost::no_property,
         boost::property<boost::edge_weight_t, int>> IGraph;
+typedef boost::adjacency_list<boost::vecS, boost::vecS, boost::undirectedS, boost::no_property,
+        boost::property<boost::edge_weight_t, long long>> LGraph;      // 64-bit integer weights (values above 2^53 are not doubles)
 
 template<class G> struct GCase {
     typedef typename boost::graph_traits<G>::edge_descriptor Edge;
@@ -48,4 +50,5 @@ inline std::string exact_weight(double x, int scale) {
     snprintf(buf, sizeof buf, "%a", x); return std::string("H") + buf;
 }
 inline std::string exact_weight(int x, int) { return std::to_string(x); }
+inline std::string exact_weight(long long x, int) { return std::to_string(x); }
 #endif
